@@ -35,6 +35,7 @@ CeilHalf(m) == (m + 1) \div 2
 BTShapeOK(bt, m, height) ==
   /\ \A i \in DOMAIN bt :
        /\ Len(bt[i].c) <= m                                           \* at most m children
+       /\ Len(bt[i].k) <= m - 1                                       \* ... hence at most m-1 keys (a leaf has k+1 notional children)
        /\ (bt[i].p # 0 => Len(bt[i].k) >= CeilHalf(m) - 1)             \* non-root: at least ceil(m/2)-1 keys
        /\ (Len(bt[i].c) > 0 => Len(bt[i].k) = Len(bt[i].c) - 1)        \* k children => k-1 keys
        /\ \A j \in DOMAIN bt[i].c : bt[i].c[j] # 0 /\ bt[bt[i].c[j]].p = i
